@@ -13,7 +13,64 @@ inductive Tree where
   | null
   | int (n : Int)
   | list (ts : List Tree)
+  /-- a dict with integer keys: i-th key `ks[i]`, i-th value `vs[i]` (the order carries no meaning:
+  every observation sorts by key) -/
+  | dict (ks : List Int) (vs : List Tree)
   deriving Repr, Inhabited
+
+/-- containers (lists and dicts) and their parts -/
+def Tree.isCont : Tree → Bool
+  | .list _ => true
+  | .dict _ _ => true
+  | _ => false
+/-- the elements of a list / the values of a dict -/
+def Tree.kids : Tree → List Tree
+  | .list ts => ts
+  | .dict _ vs => vs
+  | _ => []
+/-- `none` for a list, the key list for a dict -/
+def Tree.keysT : Tree → Option (List Int)
+  | .dict ks _ => some ks
+  | _ => none
+/-- the same container with other elements / values -/
+def Tree.withKids : Tree → List Tree → Tree
+  | .list _, ts => .list ts
+  | .dict ks _, vs => .dict ks vs
+  | t, _ => t
+
+/-- a dict has as many keys as values (vacuous for the other trees) -/
+def Tree.dictWF (t : Tree) : Prop := ∀ ks, t.keysT = some ks → ks.length = t.kids.length
+theorem Tree.dictWF_list (ts : List Tree) : (Tree.list ts).dictWF := by intro ks h; simp [Tree.keysT] at h
+theorem Tree.dictWF_dict {ks : List Int} {vs : List Tree} (h : ks.length = vs.length) : (Tree.dict ks vs).dictWF := by
+  intro ks' e; simp [Tree.keysT] at e; subst e; simpa [Tree.kids] using h
+theorem Tree.dictWF_withKids {t : Tree} {vs : List Tree} (hw : t.dictWF) (hl : vs.length = t.kids.length) :
+    (t.withKids vs).dictWF := by
+  cases t with
+  | null => intro ks h; simp [Tree.withKids, Tree.keysT] at h
+  | int n => intro ks h; simp [Tree.withKids, Tree.keysT] at h
+  | list ts => exact Tree.dictWF_list _
+  | dict ks vs0 =>
+    have := hw ks rfl
+    exact Tree.dictWF_dict (by simp [Tree.kids] at this hl; omega)
+
+@[simp] theorem Tree.isCont_list (ts : List Tree) : (Tree.list ts).isCont = true := rfl
+@[simp] theorem Tree.isCont_dict (ks : List Int) (vs : List Tree) : (Tree.dict ks vs).isCont = true := rfl
+@[simp] theorem Tree.isCont_null : Tree.null.isCont = false := rfl
+@[simp] theorem Tree.isCont_int (n : Int) : (Tree.int n).isCont = false := rfl
+@[simp] theorem Tree.kids_list (ts : List Tree) : (Tree.list ts).kids = ts := rfl
+@[simp] theorem Tree.kids_dict (ks : List Int) (vs : List Tree) : (Tree.dict ks vs).kids = vs := rfl
+@[simp] theorem Tree.keysT_list (ts : List Tree) : (Tree.list ts).keysT = none := rfl
+@[simp] theorem Tree.keysT_dict (ks : List Int) (vs : List Tree) : (Tree.dict ks vs).keysT = some ks := rfl
+@[simp] theorem Tree.withKids_list (ts ts' : List Tree) : (Tree.list ts).withKids ts' = .list ts' := rfl
+@[simp] theorem Tree.withKids_dict (ks : List Int) (vs vs' : List Tree) : (Tree.dict ks vs).withKids vs' = .dict ks vs' := rfl
+theorem Tree.withKids_isCont {t : Tree} (vs : List Tree) (h : t.isCont = true) : (t.withKids vs).isCont = true := by
+  cases t <;> simp_all [Tree.isCont, Tree.withKids]
+theorem Tree.withKids_kids {t : Tree} (vs : List Tree) (h : t.isCont = true) : (t.withKids vs).kids = vs := by
+  cases t <;> simp_all [Tree.isCont, Tree.withKids, Tree.kids]
+theorem Tree.withKids_keysT {t : Tree} (vs : List Tree) : (t.withKids vs).keysT = t.keysT := by
+  cases t <;> simp [Tree.withKids, Tree.keysT]
+theorem Tree.withKids_self {t : Tree} : t.withKids t.kids = t := by
+  cases t <;> simp [Tree.withKids, Tree.kids]
 
 /-- Python's index rule: `0 ≤ i < len` is itself, `-len ≤ i < 0` counts from the end -/
 def pyIdx (len : Nat) (i : Int) : Option Nat :=
@@ -21,18 +78,39 @@ def pyIdx (len : Nat) (i : Int) : Option Nat :=
   else if i < 0 ∧ 0 ≤ i + len then some (i + len).toNat
   else none
 
-/-- the sub-tree at an index path -/
+/-- position of a key in a dict's key list -/
+def keyIdx : List Int → Int → Option Nat
+  | [], _ => none
+  | k :: ks, i => if k = i then some 0 else (keyIdx ks i).map (· + 1)
+
+/-- position of key `i` among the entries of a dict -/
+def dictSlot (ks : List Int) (n : Nat) (i : Int) : Option Nat :=
+  match keyIdx ks i with
+  | some j => if j < n then some j else none
+  | none => none
+
+/-- the sub-tree at an index path (list indices / dict keys) -/
 def getPath : Tree → List Int → Option Tree
   | t, [] => some t
   | .list ts, i :: rest =>
     match pyIdx ts.length i with
     | none => none
     | some j => getPath (ts.getD j .null) rest
+  | .dict ks vs, i :: rest =>
+    match dictSlot ks vs.length i with
+    | none => none
+    | some j => getPath (vs.getD j .null) rest
   | _, _ :: _ => none
 
+/-- a slot transformation `old ↦ (new, result)` (`none` = raises), together with the value an index
+assignment stores under a dict key that is not present yet (`none` for pop / remove / consume) -/
+structure LeafT where
+  act : Tree → Option (Tree × Tree)
+  ins : Option Tree
+
 /-- transform the slot at an index path with `φ : old ↦ (new, result)`; `none` = the statement raises -/
-def modPath (φ : Tree → Option (Tree × Tree)) : Tree → List Int → Option (Tree × Tree)
-  | t, [] => φ t
+def modPath (φ : LeafT) : Tree → List Int → Option (Tree × Tree)
+  | t, [] => φ.act t
   | .list ts, i :: rest =>
     match pyIdx ts.length i with
     | none => none
@@ -40,22 +118,39 @@ def modPath (φ : Tree → Option (Tree × Tree)) : Tree → List Int → Option
       match modPath φ (ts.getD j .null) rest with
       | none => none
       | some (t', r) => some (.list (ts.set j t'), r)
+  | .dict ks vs, i :: rest =>
+    match dictSlot ks vs.length i with
+    | some j =>
+      match modPath φ (vs.getD j .null) rest with
+      | none => none
+      | some (t', r) => some (.dict ks (vs.set j t'), r)
+    | none =>
+      -- an index assignment whose last index is a new key inserts it
+      match rest, φ.ins with
+      | [], some new => some (.dict (ks ++ [i]) (vs ++ [new]), .null)
+      | _, _ => none
   | _, _ :: _ => none
 
-def setφ (new : Tree) (_old : Tree) : Option (Tree × Tree) := some (new, .null)
-def takeφ (old : Tree) : Option (Tree × Tree) := some (.null, old)
-def popφ : Tree → Option (Tree × Tree)
+def setφ (new : Tree) : LeafT := ⟨fun _old => some (new, .null), some new⟩
+def takeφ : LeafT := ⟨fun old => some (.null, old), none⟩
+def popAct : Tree → Option (Tree × Tree)
   | .list ts =>
     match ts.getLast? with
     | some x => some (.list ts.dropLast, x)
     | none => none
   | _ => none
-def removeφ (i : Int) : Tree → Option (Tree × Tree)
+def popφ : LeafT := ⟨popAct, none⟩
+def removeAct (i : Int) : Tree → Option (Tree × Tree)
   | .list ts =>
     match pyIdx ts.length i with
     | some j => some (.list (ts.eraseIdx j), ts.getD j .null)
     | none => none
+  | .dict ks vs =>
+    match dictSlot ks vs.length i with
+    | some j => some (.dict (ks.eraseIdx j) (vs.eraseIdx j), vs.getD j .null)
+    | none => none
   | _ => none
+def removeφ (i : Int) : LeafT := ⟨removeAct i, none⟩
 
 def setPath (t : Tree) (path : List Int) (new : Tree) : Option Tree :=
   (modPath (setφ new) t path).map (·.1)
@@ -75,11 +170,12 @@ def evalRhs (σ : Store) : Rhs → Tree
   | .atom a => evalAtom σ a
   | .list as => .list (as.map (evalAtom σ))
   | .rep a n => .list (List.replicate n (evalAtom σ a))
+  | .dict kvs => .dict (kvs.map (·.1)) ((kvs.map (·.2)).map (evalAtom σ))
 
 def declared (σ : Store) (x : Nat) : Bool := x < σ.length
 
 /-- `y = <op> x[path]` for pop / remove / consume -/
-def extract (σ : Store) (φ : Tree → Option (Tree × Tree)) (y x : Nat) (path : List Int) : Store × Bool :=
+def extract (σ : Store) (φ : LeafT) (y x : Nat) (path : List Int) : Store × Bool :=
   if declared σ x ∧ declared σ y then
     match modPath φ (get σ x) path with
     | none => (σ, false)
